@@ -382,6 +382,9 @@ theorem lower_dotted (d : Str) : ∃ n, lower (dotted d) = '.' :: n := by
       rw [this]
       exact ⟨lower (c :: cs), by simp [lower, lowerC, isUpperC]⟩
 
+/-- generated facts (T): `add` lower-cases the domain before the look-up, `get` sorts pairs. -/
+theorem cookie_shape : Gen.cookieLookupLowered = true ∧ Gen.cookieSortsPairs = true := by decide
+
 theorem addStep_spec (all : Cookie) (hall : (all.map Prod.fst).Nodup) (jar : Jar) (m : Morsel)
     (hm : m.domain.isEmpty = false) (hj : JarOK jar) :
     JarOK (addStep all jar m) ∧
@@ -389,7 +392,7 @@ theorem addStep_spec (all : Cookie) (hall : (all.map Prod.fst).Nodup) (jar : Jar
       if d' = lower (dotted m.domain) then (dictGet all n').or (lookupM jar d' n')
       else lookupM jar d' n' := by
   unfold addStep
-  simp only [hm, Bool.false_eq_true, if_false]
+  simp only [hm, Bool.false_eq_true, if_false, cookie_shape.1, if_true]
   generalize hkd : lower (dotted m.domain) = kd
   -- the cookie found under the key
   have hcookie : ∃ cookie : Cookie,
